@@ -269,6 +269,32 @@ func genWiring() {
 		add("tcpAuthFailureIsAbsorbed", ok1, where, "handleConnection: on authErr it calls h.absorbProbe and returns authErr (whatever the status: cipher, client replay, server replay)")
 		add("tcpAddAuthenticatedOnlyAfterAuth", ok2, where, "connMetrics.AddAuthenticated(id) is called once, after the authErr branch")
 	}
+	// ---- every accepted connection is reported opened exactly once, before it is handled
+	{
+		ok := false
+		where := ""
+		if b := bodyOf(svc, "ssService", "HandleStream"); b != nil {
+			where = pos(b)
+			opens := callsOf(b, "s.metrics.AddOpenTCPConnection")
+			handles := callsOf(b, "s.sh.Handle")
+			ok = len(opens) == 1 && len(handles) == 1 && opens[0].Pos() < handles[0].Pos()
+		}
+		okClosed := false
+		if b := bodyOf(svc, "streamHandler", "Handle"); b != nil {
+			closes := callsOf(b, "connMetrics.AddClosed")
+			hc := callsOf(b, "h.handleConnection")
+			// AddClosed is a top-level statement of Handle after handleConnection: every path reaches it
+			top := false
+			for _, st := range b.List {
+				if es, isEs := st.(*ast.ExprStmt); isEs && strings.HasPrefix(exprString(es.X), "connMetrics.AddClosed(") {
+					top = true
+				}
+			}
+			okClosed = len(closes) == 1 && len(hc) == 1 && hc[0].Pos() < closes[0].Pos() && top
+		}
+		add("tcpOpenedOnceBeforeHandle", ok, where, "ssService.HandleStream calls AddOpenTCPConnection exactly once and then sh.Handle")
+		add("tcpClosedOnceAfterHandleConnection", okClosed, where, "streamHandler.Handle calls connMetrics.AddClosed exactly once, unconditionally, after handleConnection returned")
+	}
 	// ---- the listener manager hands out acquired listeners only wrapped, and keeps the shared listener private
 	{
 		okS, okP := false, false
